@@ -432,6 +432,9 @@ func TestSignatureStrings(t *testing.T) {
 			c.Sig, c.Class = s[:], "honest"
 		} else {
 			sp := &sigParts{C: pu.DetBytes(rapid.Uint64().Draw(rt, "c"), 32), ZSeed: rapid.Uint64().Draw(rt, "z"), Hints: drawHints(rt)}
+			if rapid.IntRange(0, 3).Draw(rt, "sameC") == 0 {
+				sp.C = make([]byte, 32) // same challenge bytes as other strings, different z and hints
+			}
 			z, h := sp.build()
 			s, err := dilithium.VerifPackSig(sp.C, &z, &h)
 			r.Health(err == nil, "packSig")
@@ -605,6 +608,9 @@ func TestKeyEncodings(t *testing.T) {
 		switch c.Kind {
 		case "pk-bytes":
 			c.Bytes = pu.DetBytes(c.Seed, dilithium.CryptoPublicKeyBytes)
+			if c.Seed%3 == 1 {
+				copy(c.Bytes[:32], make([]byte, 32)) // same rho as other cases, different t1
+			}
 			if c.Seed%8 == 0 {
 				pk := honest.GetPK()
 				c.Bytes = pk[:]
@@ -613,8 +619,14 @@ func TestKeyEncodings(t *testing.T) {
 			// start from an honest key so eta lanes are in range, then randomise seeds and t0
 			sk := honest.GetSK()
 			b := append([]byte{}, sk[:]...)
-			copy(b[:96], pu.DetBytes(c.Seed, 96))
+			if c.Seed%3 != 0 {
+				copy(b[:96], pu.DetBytes(c.Seed, 96))
+			} // else: the SAME rho|key|tr as other cases with different polynomial sections (a decoder must not key anything on them)
 			copy(b[96+15*96:], pu.DetBytes(c.Seed+1, 8*416))
+			// permute the eta sections too (in-range lanes stay in range when whole 3-byte groups are rotated)
+			rot := int(c.Seed%31) * 3
+			eta := append([]byte{}, b[96:96+15*96]...)
+			copy(b[96:], append(eta[rot:], eta[:rot]...))
 			c.Bytes = b
 		}
 		key, msg := checkKey(c)
